@@ -51,7 +51,7 @@ REQUIRED = ["Xmp.LoadPost.C03_finish_wf", "Xmp.LoadPost.C03_sequences", "Xmp.Loa
 
 # clauses of WF that the common path guarantees for arbitrary raw modules (WFCommon)
 COMMON_CLAUSES = {"counts", "patterns", "spd", "bpm", "sequences", "sequence_control", "channels", "orders",
-                  "sustain", "envelopes_upper"}
+                  "sustain", "envelopes_upper", "rst_upper"}
 
 WORK = os.path.join(vlib.OUT, "c03")
 INT_MAX = 2 ** 31 - 1
